@@ -57,6 +57,10 @@ def gen_case(rng, k):
         return base + "\n# Legend:\na = {" + p.replace("{", "").replace("}", "") + "}\n"
     if ch == 4:      # legend name position
         return base + "\n# Legend:\n" + p + " = {fill:red}\n"
+    if rng.chance(1, 2):
+        # a shape tagged with a legend class whose declaration carries the payload
+        decl = p.replace("{", "").replace("}", "")
+        return ".----------.\n|{a} hello |\n'----------'\n\n# Legend:\na = {fill: papayawhip%s}\n" % decl
     # tag + legend together, valid identifier with marker
     return "+--------+\n| {MK%dq} |\n+--------+\n# Legend:\nMK%dq = {fill:blue}\n" % (k, k)
 
@@ -98,7 +102,14 @@ class Check(PropertyCheck):
         return dis
 
     def oracle(self, texts):
-        res = common.run_impl("lib", ["%d to_svg default %s" % (i, hx(t)) for i, t in enumerate(texts)])
+        # the vocabulary must hold under every combination of the include_* switches
+        lines = []
+        for i, t in enumerate(texts):
+            if i % 2 == 0:
+                lines.append("%d to_svg default %s" % (i, hx(t)))
+            else:
+                lines.append("%d settings b=%d,s=%d,d=%d %s" % (i, (i >> 1) & 1, (i >> 2) & 1, (i >> 3) & 1, hx(t)))
+        res = common.run_impl("lib", lines)
         fails = []
         for i, t in enumerate(texts):
             self.evaluations += 1
